@@ -5,14 +5,18 @@
        topic (C15), so messages of one component are never seen by another's handler;
    (2) frame: updating a device touches the state of that device only, and a component outside the
        extent of a tick (not a root, nothing upstream of it touched) is not touched at all;
-   (3) whole ticks: a tick of a flat level and the same tick of the level extended by a disconnected
-       part X (any number of components with wires among themselves only, any behaviour, roots of
-       the tick or not, placed anywhere in the order) give every old device the same observation,
-       leave the same state, callbacks and outputs for everything outside X.
-   (4) whole runs of a flat simulation in simulation time: [C10_run_noninterference] below.
-   PARTIAL: for nested configurations, interrupts and real-time pacing, equality of every old
-   device's observation sequence is decided per pair of runs of the real schedulers (code 91) and,
-   for adapters / EPICS records, on the real adapter classes.  Property theorems only. *)
+   (3) whole ticks: a tick of a level (devices and system simulations) and the same tick of the
+       level extended by a disconnected part X (any number of components with wires among themselves
+       only, any behaviour, roots of the tick or not, placed anywhere in the order) give every old
+       device the same observation, leave the same state, callbacks and outputs for everything
+       outside X;
+   (4) whole runs in simulation time, and in the real-time master model at speed 1, of a simulation
+       whose top level holds devices and system simulations of any depth:
+       [C10_run_noninterference], [C10_master_noninterference] below.
+   PARTIAL: for a part added inside a system simulation, interrupts and real-time pacing at other
+   speeds, equality of every old device's observation sequence is decided per pair of runs of the
+   real schedulers (code 91) and, for adapters / EPICS records, on the real adapter classes.
+   Property theorems only. *)
 From TV Require Import Base Gen.SourceConsts Model.Topics Model.Wiring Model.Ticker Model.Component Model.Sim
   Model.SimTime Proofs.TopicsP Proofs.SimP Proofs.FlattenP Proofs.NonInterfP Proofs.FrameP Proofs.AgreeP Proofs.NonInterfNestedP Proofs.NonInterfLoopP Proofs.SimTimeP.
 Open Scope Z_scope.
@@ -57,7 +61,7 @@ Proof. exact tick_noninterference. Qed.
 
 (* whole runs: the master in simulation time (Model/SimTime.v: initial tick, then always the earliest
    pending callbacks, up to a horizon; compared with the real-time master model on every generated
-   case it applies to, code 55).  A flat simulation and the same simulation extended by a
+   case it applies to, code 55).  A simulation and the same simulation extended at the top level by a
    disconnected part X of ANY behaviour -- devices and whole system simulations nested to any depth,
    their own callbacks at any times, hence extra ticks and merged ticks -- : when the extended run is complete, so is the base run with the same number of
    steps, and every base device has observed exactly the same sequence of (time, inputs); the
@@ -92,32 +96,29 @@ Proof. exact on_tick_level_agree. Qed.
 
 (* the same for the master model with real time (Model/Sim.v [simulate_full], the model every
    whole-simulation run of the real schedulers is compared with), at speed 1, no interrupts, devices
-   that never ask to be called back in the past: the simulation-time loop IS that model
-   ([master_is_sim_loop]), so whenever the extended run is complete within the given steps every
-   base device observes in the base simulation exactly what it observes in the extended one *)
-Theorem C10_master_noninterference : forall cfg cfg' devf (isX : comp -> bool),
+   that never ask to be called back in the past: the simulation-time loop IS that model for every
+   configuration, nested or not ([master_is_sim_loop]), so whenever the extended run is complete
+   within the given steps every base device observes in the base simulation exactly what it
+   observes in the extended one *)
+Theorem C10_master_noninterference : forall cfg cfg' devf (isX : comp -> bool) (isXL : positive -> bool) fuel,
   l_order (level_of cfg top) = filter (fun ck : comp * ckind => negb (isX (fst ck))) (l_order (level_of cfg' top)) ->
   l_conns (level_of cfg top) = filter (oldc isX) (l_conns (level_of cfg' top)) ->
-  (forall ck, In ck (l_order (level_of cfg' top)) -> snd ck = KDev) ->
+  (forall ck, In ck (l_order (level_of cfg' top)) -> nkind cfg cfg' isX isXL fuel ck) ->
   (forall k, In k (l_conns (level_of cfg' top)) -> isX (out_comp k) = isX (in_comp k)) ->
-  isX ext_id = false -> isX exp_id = false ->
+  isX ext_id = false -> isX exp_id = false -> isXL top = false ->
   (forall c n t i w, snd (devf c n t i) = Some w -> t <= w) ->
-  forall n fuel initial t_end,
+  forall n initial t_end,
     snd (sim_run cfg' devf n fuel initial (initial + t_end)) = true ->
     filter (notX isX) (m_obs (simulate_full cfg' devf 1 1 fuel n initial [] [] t_end)) =
     m_obs (simulate_full cfg devf 1 1 fuel n initial [] [] t_end).
 Proof.
-  intros cfg cfg' devf isX Hord Hcon Hk Hsep Hext Hexp Hwell n fuel initial t_end Hfin.
-  assert (Hflat : forall ck, In ck (l_order (level_of cfg top)) -> snd ck = KDev).
-  { intros ck Hi. rewrite Hord in Hi. apply filter_In in Hi. apply Hk. apply Hi. }
-  assert (Hxk : forall ck, In ck (l_order (level_of cfg' top)) -> nkind cfg cfg' isX (fun _ => false) fuel ck).
-  { intros ck Hi. unfold nkind. rewrite (Hk ck Hi). exact I. }
-  pose proof (master_is_sim_loop cfg' devf Hk Hwell fuel initial t_end n) as H'.
-  pose proof (master_is_sim_loop cfg devf Hflat Hwell fuel initial t_end n) as H.
+  intros cfg cfg' devf isX isXL fuel Hord Hcon Hxk Hsep Hext Hexp Htop Hwell n initial t_end Hfin.
+  pose proof (master_is_sim_loop cfg' devf Hwell fuel initial t_end n) as H'.
+  pose proof (master_is_sim_loop cfg devf Hwell fuel initial t_end n) as H.
   cbv zeta in H, H'.
   destruct (sim_run cfg' devf n fuel initial (initial + t_end)) as [[s1' o1'] fin'] eqn:E'.
   cbn [snd] in Hfin. subst fin'.
-  destruct (run_noninterference cfg cfg' devf isX (fun _ => false) Hord Hcon fuel Hxk Hsep Hext Hexp eq_refl n initial (initial + t_end) s1' o1' E') as [s1 [E _]].
+  destruct (run_noninterference cfg cfg' devf isX isXL Hord Hcon fuel Hxk Hsep Hext Hexp Htop n initial (initial + t_end) s1' o1' E') as [s1 [E _]].
   rewrite E in H. destruct H as [_ H]. destruct H' as [_ H']. rewrite H, H'. reflexivity.
 Qed.
 
